@@ -21,10 +21,11 @@ def _next_stmt(node):
 def id_sources(repo, rep):
     fi = repo.func(f"{MOD}.np_track_partitions")
     # the id table and the counter
-    ret = [n for n in ast.walk(fi.node) if isinstance(n, ast.Return)]
-    if len(ret) != 1 or not isinstance(ret[0].value, ast.Tuple) or len(ret[0].value.elts) != 2:
+    from ..astutil import returns as _rets
+    ret = _rets(fi.node)
+    if len(ret) != 1 or not isinstance(ret[0][1], ast.Tuple) or len(ret[0][1].elts) != 2:
         raise AnalysisError("np_track_partitions: return (part_ids, counter) not found")
-    table, counter = (unparse(e) for e in ret[0].value.elts)
+    table, counter = (unparse(e) for e in ret[0][1].elts)
     # counter: initialised to 0, changed only by += 1
     inits = [n for n in ast.walk(fi.node) if isinstance(n, ast.Assign) and any(unparse(t) == counter for t in n.targets)]
     if len(inits) != 1 or repo.const(fi.module, inits[0].value) != 0:
@@ -132,6 +133,11 @@ def availability(repo, rep):
     loops = [n for n in fi.node.body if isinstance(n, ast.For)]
     if not loops:
         raise AnalysisError("match_consecutive_partitions: matching loop not found")
+    from ..astutil import returned_names
+    mr = returned_names(fi.node)
+    if len(mr) != 1 or not isinstance(mr[0], ast.Name):
+        raise AnalysisError("match_consecutive_partitions: returned match table not found")
+    mtable = mr[0].id
     loop = loops[-1]
     cur = loop.target.elts[0].id if isinstance(loop.target, ast.Tuple) else None
     # candidate filter reads availability
@@ -156,7 +162,7 @@ def availability(repo, rep):
     # match recorded -> same predecessor removed
     recs = []
     for n in ast.walk(loop):
-        if isinstance(n, ast.Assign) and isinstance(n.targets[0], ast.Subscript) and unparse(n.targets[0].value) == "matches":
+        if isinstance(n, ast.Assign) and isinstance(n.targets[0], ast.Subscript) and unparse(n.targets[0].value) == mtable:
             v = repo.const(fi.module, n.value)
             if v is UNKNOWN:
                 recs.append(n)
@@ -192,11 +198,25 @@ def thresholds(repo, rep):
     src = fi.node
     # admissibility mask: ddpm < ddpm_max & dfp < dfp_max & dfp > dfp_min
     atoms = set()
+    # roles of the locals, from their defining expressions (parameters keep their public names)
+    role = {}
+    for n in ast.walk(src):
+        if isinstance(n, ast.Assign) and isinstance(n.targets[0], ast.Name):
+            nm, txt = n.targets[0].id, unparse(n.value).replace(" ", "")
+            if any(isinstance(x, ast.BinOp) and isinstance(x.op, ast.Mod) and repo.const(fi.module, x.right) == 360 for x in ast.walk(n.value)):
+                role[nm] = "ddpm"
+            elif "fp[:,1]" in txt and "fp[:,0]" in txt and any(isinstance(x, ast.BinOp) and isinstance(x.op, ast.Sub) for x in ast.walk(n.value)):
+                role[nm] = "dfp"
+            elif "[ddpm_sea_max]" in txt or "[ddpm_swell_max]" in txt:
+                role[nm] = "ddpm_max"
+            elif "[dfp_sea_max]" in txt or "-dfp_swell_max" in txt:
+                role[nm] = "dfp_min"
+            elif "[dfp_swell_max]" in txt:
+                role[nm] = "dfp_max"
     for n in ast.walk(src):
         if isinstance(n, ast.Compare) and len(n.ops) == 1 and isinstance(n.left, ast.Name) and isinstance(n.comparators[0], ast.Name):
-            atoms.add((n.left.id, type(n.ops[0]).__name__, n.comparators[0].id))
+            atoms.add((role.get(n.left.id, n.left.id), type(n.ops[0]).__name__, role.get(n.comparators[0].id, n.comparators[0].id)))
     need = {("ddpm", "Lt", "ddpm_max"), ("dfp", "Lt", "dfp_max"), ("dfp", "Gt", "dfp_min")}
-    alt = {("ddpm", "LtE", "ddpm_max"), ("dfp", "LtE", "dfp_max"), ("dfp", "GtE", "dfp_min")}
     missing = [a for a in need if a not in atoms]
     if missing:
         rep.fail("R-C19-4", fi.file, fi.node.lineno, fi.qualname, f"threshold tests present: {sorted(atoms)}",
@@ -211,7 +231,7 @@ def thresholds(repo, rep):
     # sea row first in each threshold vector
     for name, first in (("ddpm_max", "ddpm_sea_max"), ("dfp_min", "dfp_sea_max")):
         for n in ast.walk(src):
-            if isinstance(n, ast.Assign) and isinstance(n.targets[0], ast.Name) and n.targets[0].id == name:
+            if isinstance(n, ast.Assign) and isinstance(n.targets[0], ast.Name) and role.get(n.targets[0].id) == name:
                 txt = unparse(n.value).replace(" ", "")
                 if f"[{first}]+" in txt:
                     rep.ok("R-C19-4", f"{fi.file}:{n.lineno} match_consecutive_partitions", unparse(n)[:90], "sea threshold for partition 0, swell for the rest")
